@@ -42,6 +42,11 @@ type HarnessSpec struct {
 	TimeoutMs int              `json:"timeout_ms"`
 	Replay   string            `json:"replay"` // "native" (default) or "trace"
 	Solver   string            `json:"solver"`
+	Goroutines   bool          `json:"goroutines"`
+	SchedNondet  bool          `json:"sched_nondet"`
+	SelectNondet bool          `json:"select_nondet"`
+	SchedPreempt int           `json:"sched_preempt"`
+	Deadlock     bool          `json:"deadlock_is_violation"`
 	What     string            `json:"what"`
 	Bounds   map[string]string `json:"bounds"`
 	MayBeUnknown int           `json:"-"`
@@ -212,6 +217,8 @@ func checkMain(args []string) int {
 			}
 		}
 		cfg.Solver = h.Solver
+		cfg.Goroutines, cfg.SchedNondet, cfg.SchedPreempt, cfg.DeadlockIsViolation = h.Goroutines, h.SchedNondet, h.SchedPreempt, h.Deadlock
+		cfg.SelectNondet = h.SelectNondet
 		cfg.DropGo = h.DropGo
 		cfg.NoOps = h.NoOps
 		cfg.Stubs = map[string]string{}
